@@ -72,6 +72,7 @@ def p_C01(res, facts, tier):
     dds.check_gates(res, facts, 'C01')
     dds.check_tick(res, facts, 'C01')
     dds.check_bits(res, facts, [dds.ADSR], which=('index', 'fraction_range'))
+    dds.check_value_getter(res, facts)
     if tier == 'thorough':
         from . import witness
         witness.run_witnesses(res, ['W2', 'W3'])
@@ -92,6 +93,7 @@ def p_C03(res, facts, tier):
     dds.check_gates(res, facts, 'C03')
     dds.check_tick(res, facts, 'C03')
     dds.table_checks(res, facts, {'attack'})
+    dds.check_value_getter(res, facts)
 
 
 def p_C10(res, facts, tier):
